@@ -386,6 +386,7 @@ def h_adaptive(ctx, P):
             from fractions import Fraction
             log[-1]["tau"] = (t - log[-1]["t0"]) * (Fraction(1) / Fraction(c1)) if ctx.symbolic else (t - log[-1]["t0"]) / c1
         log[-1]["stages"] += 1
+        log[-1].setdefault("times", []).append(t)
         return H0
 
     fresh = [0]
@@ -423,6 +424,17 @@ def h_adaptive(ctx, P):
     ctx.check("an accepted trial hands its result to the next trial", ok_acc)
     ctx.check("an accepted trial advances the time by exactly its sub-step", ctx.all(tcond))
     ctx.check("the first trial starts from the input at time 0", ctx.all([ctx.eq(log[0]["t0"], 0), log[0]["start"] is psi]))
+    # stage times: the Hamiltonian of stage i is requested at t0 + c_i * tau in EVERY trial (also in those that start at t0 != 0)
+    stconds = []
+    for tr in log:
+        if "tau" not in tr:
+            continue
+        for i_, ti in enumerate(tr.get("times", [])):
+            ci = tab[2][i_]
+            from fractions import Fraction
+            cf = Fraction(float(ci)) if ctx.symbolic else float(ci)
+            stconds.append(ctx.eq(ti, tr["t0"] + tr["tau"] * cf))
+    ctx.check("every stage asks for the Hamiltonian at t0 + c_i * tau (all trials, also those starting at t0 != 0)", ctx.all(stconds))
     if res is None:
         return
     last = log[-1]
